@@ -274,6 +274,11 @@ func requiredFamily(valid M) []struct {
 		mk("present-object:null-and-unknown-type", func(m M) { m["object"] = A{nil, M{"type": "EmojiReact", "id": R1 + "/react/1"}} })
 		mk("missing-object:list-of-one-null", func(m M) { m["object"] = A{nil} })
 	}
+	if typ == "Accept" || typ == "Announce" {
+		// no required object here: null is the member left out, and the
+		// activity without it is accepted
+		mk("good-id:object-null", func(m M) { m["object"] = nil })
+	}
 	if typ == "Add" || typ == "Remove" {
 		mk("missing-target:absent", func(m M) { delete(m, "target") })
 		mk("missing-target:empty-list", func(m M) { m["target"] = A{} })
